@@ -279,3 +279,27 @@ theorem lastIndex_append (c : Char) : ∀ (a b : Str), c ∉ b → lastIndex c (
 
 
 end Scion.Addr
+
+namespace Scion.Addr
+/-- whatever `parseAS` accepts is an AS number -/
+theorem parseAS_lt (sep s : Str) (v : Nat) (h : parseAS sep s = .ok v) : v < 2 ^ 48 := by
+  unfold parseAS at h
+  split at h
+  · have := ((parseUint_ok_iff 10 bgpASBits (by omega) s v).1 h).2.2.2
+    simp only [bgpASBits] at this
+    omega
+  · split at h
+    · cases h
+    · split at h
+      · cases h
+      · split at h
+        · cases h
+        · dsimp only at h
+          split at h
+          · cases h
+          · rename_i hlt
+            cases h
+            simp only [maxAS] at hlt
+            omega
+  · cases h
+end Scion.Addr
